@@ -1072,7 +1072,11 @@ def reconstruct (src : Mgr) (addr : Nid → Nat) (c : Content) (args : List Nid)
     -- STORE, BV_TONATURAL: the callback is the plain constructor on the rebuilt children
     mkPlain nt args
 
-abbrev Memo := List (Nid × Nid)
+/-- The memoization table of a manager's `FormulaContextualizer`.  It lives as long as the
+    manager (`FormulaManager._normalizer`, `invalidate_memoization = False`) and is keyed by the
+    source *object*: a node of another manager, identified here by (source manager, node id) —
+    node ids alone are unique only within one manager. -/
+abbrev Memo := List ((Nat × Nid) × Nid)
 
 def foldMemo (f : Nid → Memo → Prog Memo) : List Nid → Memo → Prog Memo
   | [], m => pure m
@@ -1081,26 +1085,63 @@ def foldMemo (f : Nid → Memo → Prog Memo) : List Nid → Memo → Prog Memo
     foldMemo f t m'
 
 /-- `DagWalker.iter_walk` specialised to the contextualizer: depth first, children last to
-    first (the explicit stack pops the last pushed child first), one result per node. -/
-def normAux (src : Mgr) (addr : Nid → Nat) : Nat → Nid → Memo → Prog Memo
+    first (the explicit stack pops the last pushed child first), one result per node.
+    `k` names the source manager `src` in the memo keys. -/
+def normAux (src : Mgr) (k : Nat) (addr : Nid → Nat) : Nat → Nid → Memo → Prog Memo
   | 0, _, _ => failP .badId
   | fuel + 1, i, memo =>
-    match assoc i memo with
+    match assoc (k, i) memo with
     | some _ => pure memo
     | none =>
       match src.content? i with
       | none => failP .badId
       | some c => do
-        let memo' ← foldMemo (normAux src addr fuel) c.args.reverse memo
-        let r ← reconstruct src addr c (c.args.map (fun a => (assoc a memo').getD 0))
-        pure ((i, r) :: memo')
+        let memo' ← foldMemo (normAux src k addr fuel) c.args.reverse memo
+        let r ← reconstruct src addr c (c.args.map (fun a => (assoc (k, a) memo').getD 0))
+        pure ((((k, i), r)) :: memo')
 
-/-- `FormulaManager.normalize(formula)`: re-create node `i` of manager `src` in the current
-    manager (`addr` = addresses of the current manager's objects). -/
-def normalize (src : Mgr) (addr : Nid → Nat) (i : Nid) : Prog Nid := do
-  let memo ← normAux src addr (i + 1) i []
-  match assoc i memo with
-  | some r => pure r
+/-- `FormulaManager.normalize(formula)` with the manager's persistent memo `memo`: re-create
+    node `i` of manager `src` (named `k`) in the current manager (`addr` = addresses of the
+    current manager's objects); returns the grown memo and the copy. -/
+def normalizeM (src : Mgr) (k : Nat) (addr : Nid → Nat) (i : Nid) (memo : Memo) : Prog (Memo × Nid) := do
+  let memo' ← normAux src k addr (i + 1) i memo
+  match assoc (k, i) memo' with
+  | some r => pure (memo', r)
   | none => failP .badId
+
+/-- one `normalize` call with a fresh normalizer -/
+def normalize (src : Mgr) (addr : Nid → Nat) (i : Nid) : Prog Nid := do
+  let r ← normalizeM src 0 addr i []
+  pure r.2
+
+/-! ## Several environments
+
+A world is a family of managers, each with the memo of its normalizer.  A step runs a program
+in one manager, or normalizes a node of manager `k` into manager `t` (`k = t` allowed: the
+manager's own formula).  On a failing `normalize` the memo entries of the aborted walk are
+dropped here (Python keeps them; they are never wrong, so this is unobservable). -/
+
+structure World where
+  mgrs : Nat → Mgr
+  memos : Nat → Memo
+
+def World.init : World := ⟨fun _ => Mgr.init, fun _ => []⟩
+
+def upd {α : Type} (f : Nat → α) (t : Nat) (v : α) : Nat → α := fun x => if x = t then v else f x
+
+def World.runProg {α : Type} (w : World) (t : Nat) (p : Prog α) : Except Err α × World :=
+  let r := p.run (w.mgrs t)
+  (r.1, { w with mgrs := upd w.mgrs t r.2 })
+
+/-- result, new target manager, new memo of the target -/
+def normStep (src tgt : Mgr) (k : Nat) (addr : Nid → Nat) (i : Nid) (memo : Memo) :
+    Except Err Nid × Mgr × Memo :=
+  match (normalizeM src k addr i memo).run tgt with
+  | (.ok (memo', j), tgt') => (.ok j, tgt', memo')
+  | (.error e, tgt') => (.error e, tgt', memo)
+
+def World.normalize (w : World) (t k : Nat) (addr : Nid → Nat) (i : Nid) : Except Err Nid × World :=
+  let r := normStep (w.mgrs k) (w.mgrs t) k addr i (w.memos t)
+  (r.1, { mgrs := upd w.mgrs t r.2.1, memos := upd w.memos t r.2.2 })
 
 end PySMT.Manager
